@@ -57,3 +57,38 @@ func DumpInline(p *Program) {
 		println("kept as call:", c)
 	}
 }
+
+// DebugChain prints domChainEdges for every block of functions whose name contains sub that stores a bool constant.
+func DebugChain(p *Program, sub string) {
+	for _, f := range p.AllOwnFuncs() {
+		if !strings.Contains(FuncName(f), sub) {
+			continue
+		}
+
+		for _, b := range f.Blocks {
+			for _, in := range b.Instrs {
+				st, ok := in.(*ssa.Store)
+				if !ok {
+					continue
+				}
+
+				if c, ok := st.Val.(*ssa.Const); ok && c.Value != nil && c.Value.String() == "true" {
+					es, complete := p.domChainEdges(b, nil)
+					println(FuncName(f), "b", b.Index, "complete", complete)
+
+					for _, b2 := range f.Blocks {
+						for _, in2 := range b2.Instrs {
+							if mc, ok := in2.(*ssa.MakeClosure); ok {
+								_, c2 := p.domChainEdges(b, b2)
+								println("   at closure", mc.Fn.Name(), "b", b2.Index, "complete", c2)
+							}
+						}
+					}
+					for _, e := range es {
+						println("   ", e.Truth, p.Desc(e.Cond))
+					}
+				}
+			}
+		}
+	}
+}
